@@ -248,9 +248,12 @@ def r_lock_flag(ctx: Ctx, rule: str):
     effs = [e for e in ctx.effects(fields=["_locked"], kinds=["assign", "aug"]) if e.path.endswith("._locked")]
     rep.floor(rule, "writes of _locked", len(effs), 3)
     for e in effs:
-        hosts = ctx.hosts(e.node.func)
+        hosts = ctx.hosts_of(e.node)
         rep.ob(rule, "_locked written only by __init__, lock and unlock", hosts <= {"__init__", "lock", "unlock"} and ctx.in_pool(e.node.func), node=e.node)
         val = getattr(e.node.ast, "value", None)
+        if val is not None:
+            # through locals and the parameters of a helper spliced into lock()/unlock()
+            val = ctx.vals.trace(e.node.func, e.node.env, val)[2]
         if hosts <= {"lock"}:
             rep.ob(rule, "lock() stores only True", isinstance(val, ast.Constant) and val.value is True, node=e.node)
         if hosts <= {"unlock"}:
@@ -269,18 +272,49 @@ def r_lock_flag(ctx: Ctx, rule: str):
 def _flag_paths(ctx: Ctx, f: FuncInfo, const: bool):
     """Paths to the exit either store `const` or pass a test of self._locked whose outcome implies it."""
     g = ctx.an.cfg(f)
+    V = ctx.vals
+
+    def const_of(n: Node, e: Optional[ast.AST]):
+        """the literal an expression stands for at step n (through locals and the parameters of spliced helpers)"""
+        if e is None:
+            return None
+        leaf = V.trace(n.func, n.env, e)[2]
+        return leaf if isinstance(leaf, ast.Constant) else None
+
     stores = set(ctx.nodes(f, lambda n: n.op == "assign" and any(e.path.endswith("._locked") for e in ctx.eff.of_node(n))
-                           and isinstance(getattr(n.ast, "value", None), ast.Constant) and n.ast.value.value is const))
+                           and const_of(n, getattr(n.ast, "value", None)) is not None and const_of(n, n.ast.value).value is const))
     tests = ctx.nodes(f, lambda n: n.op == "test" and any(isinstance(x, ast.Attribute) and x.attr == "_locked" for x in ast.walk(n.ast)))
+
+    def flag(e: ast.AST) -> bool:
+        if isinstance(e, ast.Call) and isinstance(e.func, ast.Name) and e.func.id == "bool" and len(e.args) == 1:
+            e = e.args[0]
+        return isinstance(e, ast.Attribute) and e.attr == "_locked"
+
+    def says(n: Node, e: ast.AST) -> Optional[bool]:
+        """the value of the flag that the test being TRUE implies (None: the test says nothing usable)"""
+        if isinstance(e, ast.UnaryOp) and isinstance(e.op, ast.Not):
+            v = says(n, e.operand)
+            return None if v is None else not v
+        if flag(e):
+            return True
+        if isinstance(e, ast.Compare) and len(e.ops) == 1:
+            l, r = e.left, e.comparators[0]
+            if flag(r) and not flag(l):
+                l, r = r, l
+            k = const_of(n, r)
+            if flag(l) and k is not None and isinstance(k.value, bool):
+                if isinstance(e.ops[0], (ast.Is, ast.Eq)):
+                    return k.value
+                if isinstance(e.ops[0], (ast.IsNot, ast.NotEq)):
+                    return not k.value
+        return None
 
     def ef(a: Node, b: Node, lab: Label) -> bool:
         if a in tests and lab[0] in ("T", "F"):
-            e = a.ast
-            neg = isinstance(e, ast.UnaryOp) and isinstance(e.op, ast.Not)
-            if not (isinstance(e, ast.Attribute) or (neg and isinstance(e.operand, ast.Attribute))):
+            v = says(a, a.ast)
+            if v is None:
                 return True
-            flag_true_label = "F" if neg else "T"
-            implied = (lab[0] == flag_true_label)
+            implied = v if lab[0] == "T" else (not v)
             # outcome shows the flag already equals const: this path is fine, cut it
             return implied != const
         return True
@@ -305,7 +339,8 @@ def r_one_spawner_per_request(ctx: Ctx, rule: str, names=("apply", "_map", "star
             for s in sites:
                 # the created task is filed in the running-spawner set of the group
                 stored = [m for m in g.nodes if m.pred and any(e.kind == "insert" and field_of(e.path) == "_group_meta_tasks_running" for e in ctx.eff.of_node(m))
-                          and any(x is s.ast for x in ast.walk(m.ast))]
+                          and (any(x is s.ast for x in ast.walk(m.ast))
+                               or any(isinstance(x, ast.Name) and ctx.vals.resolve(m.func, x) is s.ast for x in ast.walk(m.ast) if isinstance(x, ast.Name) and isinstance(x.ctx, ast.Load)))]
                 rep.ob(rule, "the spawner task is registered among the group's running spawners (so cancel_group / gather_and_close can find it)", bool(stored), node=s)
             # group registration before the spawner exists
             regs = ctx.nodes(f, lambda n: any(e.kind == "insert" and e.path == "self._task_groups" for e in ctx.trans_effects(n)))
